@@ -37,7 +37,7 @@ ran.append(f"demo on unmodified tree: exit {r0[0]}")
 a = sh(f"git apply --check {patch}")
 assert a.returncode == 0, "patch does not apply: " + a.stderr
 sh(f"git apply {patch}")
-t = sh("/venv/bin/python -m pytest -q -p no:cacheprovider --timeout=900 2>&1 | tail -1", timeout=1800)
+t = sh("/venv/bin/python -m pytest -q -p no:cacheprovider --timeout=900 -n 6 2>&1 | tail -1", timeout=1800)
 tests = t.stdout.strip()
 ran.append(f"pinned test-suite with patch: {tests}")
 r1 = run_demo()
